@@ -52,6 +52,8 @@ class Report:
         self.queries = {"sat": 0, "unsat": 0, "unknown": 0}
         self.explanations = []
         self.spurious_keys = set()
+        self.n_replays = 0
+        self.max_replays = 6
 
     # ------------------------------------------------------------------
     def note_ctx(self, ctx):
@@ -110,6 +112,7 @@ class Report:
         key = re.sub(r"[^A-Za-z0-9_:.\-\[\]]", "", key)
         key = re.sub(r"_cell_\d+", "", key)
         key = re.sub(r"window_\d+", "window", key)
+        key = re.sub(r"\d+", "N", key)
         v = {"key": key, "group": group, "label": r["label"], "model": r.get("model"), "replay": None, "reproduced": None}
         for old in self.violations:
             if old["key"] == key:
@@ -117,7 +120,14 @@ class Report:
                 return
         if key in self.spurious_keys:
             return
-        if replay is not None:
+        if replay is not None and self.n_replays >= self.max_replays:
+            v["reproduced"] = None
+            v["replay_skipped"] = "replay budget exhausted"
+            if self.violations:
+                self.violations[-1]["also_in"] = self.violations[-1].get("also_in", 0) + 1
+                return
+        elif replay is not None:
+            self.n_replays += 1
             try:
                 rep, path = replay(r)
             except Exception as e:  # noqa
@@ -240,22 +250,34 @@ def native_replay(build, pkg, harness, params, values, tag="r", cpus=None, timeo
     json.dump({"harness": harness.rsplit(".", 1)[-1], "params": {k: v for k, v in params.items() if isinstance(v, int)},
                "values": {k: (str(v) if isinstance(v, int) and not isinstance(v, bool) else v) for k, v in values.items()},
                "pkg": pkg, "entry": harness}, open(rf, "w"), indent=1)
-    cmd = ["go", "test", "-vet=off", "-count=1", "-overlay", ovf, "-run", "^TestVerifReplay$", "-v", "./" + rel if rel else "."]
-    if build.tags:
-        cmd[2:2] = ["-tags", build.tags]
-    if cpus:
-        cmd = ["taskset", "-c", "0-%d" % (cpus - 1)] + cmd
-    env = dict(D.GOENV, VERIF_REPLAY=rf)
-    if extra_env:
-        env.update(extra_env)
-    cmd[cmd.index("-count=1") + 1:cmd.index("-count=1") + 1] = ["-timeout", "%ds" % max(30, timeout - 30)]
-    try:
-        r = subprocess.run(cmd, cwd=D.REPO, env=env, capture_output=True, text=True, timeout=timeout)
-        out = r.stdout + r.stderr
-        rc = r.returncode
-    except subprocess.TimeoutExpired as e:
-        out = "TIMEOUT"
-        rc = -1
+    binpath = os.path.join(build.dir, "replay_%s.test" % D.PKGNAMES[pkg])
+    ck = (build.tag, pkg)
+    out = ""
+    rc = 0
+    if ck not in _REPLAY_BIN:
+        cmd = ["go", "test", "-vet=off", "-c", "-o", binpath, "-overlay", ovf, "./" + rel if rel else "."]
+        if build.tags:
+            cmd[2:2] = ["-tags", build.tags]
+        r = subprocess.run(cmd, cwd=D.REPO, env=D.GOENV, capture_output=True, text=True)
+        _REPLAY_BIN[ck] = (r.returncode == 0, (r.stdout + r.stderr)[-3000:])
+    okb, blog = _REPLAY_BIN[ck]
+    if not okb:
+        out = "build failed\n" + blog
+        rc = 2
+    else:
+        cmd = [binpath, "-test.run", "^TestVerifReplay$", "-test.v", "-test.count=1", "-test.timeout", "%ds" % max(30, timeout - 30)]
+        if cpus:
+            cmd = ["taskset", "-c", "0-%d" % (cpus - 1)] + cmd
+        env = dict(D.GOENV, VERIF_REPLAY=rf)
+        if extra_env:
+            env.update(extra_env)
+        try:
+            r = subprocess.run(cmd, cwd=os.path.join(D.REPO, rel), env=env, capture_output=True, text=True, timeout=timeout)
+            out = r.stdout + r.stderr
+            rc = r.returncode
+        except subprocess.TimeoutExpired:
+            out = "TIMEOUT"
+            rc = -1
     failed = re.findall(r"^VERIF-ASSERT-FAILED (.*)$", out, re.M)
     panics = re.findall(r"^VERIF-PANIC (.*)$", out, re.M)
     notes = {}
@@ -270,6 +292,7 @@ def native_replay(build, pkg, harness, params, values, tag="r", cpus=None, timeo
 
 
 _REPLAY_N = [0]
+_REPLAY_BIN = {}
 
 
 def std_replay(build, pkg, harness, params, match=None, cpus=None):
@@ -326,16 +349,24 @@ def _job_wrapper(arg):
 def run_jobs(rep, fn, arglist, nproc=None, name=lambda a: str(a), on_result=None):
     """run fn(*args) for each args in a fork pool; fn returns dict(group, recs, info, ...) or list of those"""
     import multiprocessing as mp
-    nproc = nproc or min(16, os.cpu_count() or 1)
+    nproc = nproc or int(os.environ.get("VERIF_NPROC", "0")) or min(16, os.cpu_count() or 1)
     results = []
     if nproc <= 1 or len(arglist) <= 1:
         for a in arglist:
             results.append(_job_wrapper((fn, a)))
     else:
+        import concurrent.futures as cf
         ctxm = mp.get_context("fork")
-        with ctxm.Pool(nproc) as pool:
-            for r in pool.imap(_job_wrapper, [(fn, a) for a in arglist], chunksize=1):
-                results.append(r)
+        job_timeout = int(os.environ.get("VERIF_JOB_TIMEOUT", "3000"))
+        with cf.ProcessPoolExecutor(max_workers=nproc, mp_context=ctxm) as pool:
+            futs = [(a, pool.submit(_job_wrapper, (fn, a))) for a in arglist]
+            for a, f in futs:
+                try:
+                    results.append(f.result(timeout=job_timeout))
+                except cf.TimeoutError:
+                    results.append(("error", a, "job exceeded %ds" % job_timeout))
+                except Exception as e:  # noqa  (BrokenProcessPool: a worker died)
+                    results.append(("error", a, "worker process failed: %r" % (e,)))
     for st, a, res in results:
         if st != "ok":
             rep.inconclusive_group(name(a), ("encoder: " if st == "unsupported" else "internal error: ") + res)
